@@ -34,7 +34,11 @@ RULE = ("(a) generated studies (as C08, incl. generator-made label lists, custom
 BATCHES = [{"type": "local"}, {"type": "slurm", "host": "h", "bank": "b", "queue": "q", "nodes": 2},
            {"type": "lsf", "host": "h", "bank": "b", "queue": "q", "reservation": "r1"},
            {"type": "flux", "host": "h", "bank": "b", "queue": "q", "args": {"mpi": "spectrum"}},
-           {"type": "local", "shell": "/bin/sh"}]
+           {"type": "local", "shell": "/bin/sh"},
+           # blank / falsy values are data too (an empty bank, zero nodes, a switch that is off)
+           {"type": "slurm", "host": "h", "bank": "", "queue": "q", "nodes": 0, "reservation": ""},
+           {"type": "lsf", "host": "", "bank": "b", "queue": "q", "exclusive": False, "qos": None},
+           {"type": "flux", "host": "h", "bank": "b", "queue": "q", "args": {}, "uri": ""}]
 
 
 def snapshot_case(ctx):
